@@ -382,3 +382,13 @@ def fs_check(check_name, root, params, slots):
     from engine import fscheck
     res = getattr(fscheck, check_name)(root, *params, slots=slots)
     return res['viol']
+
+
+def c10_outcome(text, flags):
+    from props.c10 import make_func
+    return make_func(flags)(text)
+
+
+def c10_seed_failures():
+    from props.c10 import seed_layer
+    return seed_layer()[0]
